@@ -74,6 +74,11 @@ def raman_topology(rng):
         b['operational']['delta_p'] = G.pick(rng, [0, 1.0, -1.0])
         ab.append(b)
     ab.append(raman_fiber(rng, 'raman (A → B)'))
+    if rng.random() < 0.25:
+        # the Raman fibre is spliced to a short plain fibre (a patch to the site): one span, Raman-amplified
+        ab.append({'uid': 'splice (A → B)', 'type': 'Fused', 'params': {'loss': G.pick(rng, [0.3, 0.5])},
+                   'metadata': G._loc(1, 1)})
+        ab.append(G.gen_fiber(rng, 'tail (A → B)', length=G.pick(rng, [2.0, 5.0, 12.0]), allow_none_con=False))
     ba = [G.gen_fiber(rng, 'fiber (B → A)-0', max_km=100)]
     for e in ab + ba:
         e.pop('_settings', None)
